@@ -89,6 +89,11 @@ def full_deps(fn: FunctionInfo) -> Dict[str, Set[str]]:
     return closed
 
 
+def _inside_loop(cfg: CFG, nid: int) -> bool:
+    return any(cfg.nodes[d].kind == "iter" or (cfg.nodes[d].kind == "test" and isinstance(getattr(cfg.nodes[d], "stmt", None), ast.While))
+               for d in cfg.dominators(nid))
+
+
 def run(idx: ProgramIndex, rep: Report, tier: str, selftest: bool = True):
     rep.extra["explanation"] = (
         "Typestate, must-pass-through and dependence rules over the statement-level CFG of "
@@ -117,6 +122,16 @@ def run(idx: ProgramIndex, rep: Report, tier: str, selftest: bool = True):
             helper = f
     if helper is None:
         raise AnalysisError("no function of utils/cholesky.py calls torch.linalg.cholesky_ex (anchor vanished)")
+    # same-module helpers that the retry routine calls (a NaN screen, the masked diagonal update ...) are inlined, so that
+    # extracting or re-inlining them does not change a verdict; psd_safe_cholesky itself keeps its call of the routine
+    from ..inline import inline_helpers
+
+    helper0 = helper
+    helper, inlined = inline_helpers(idx, helper0)
+    if pub is not helper0:
+        pub, inl2 = inline_helpers(idx, pub, only={f.name for f in m.functions.values() if f is not helper0 and f is not pub})
+        inlined += inl2
+    rep.analysed["inlined_helpers"] = inlined
     rep.analysed["functions"] = [fname(pub), fname(helper)]
 
     # ---------------------------------------------------------------- W
@@ -204,6 +219,17 @@ def run(idx: ProgramIndex, rep: Report, tier: str, selftest: bool = True):
                                      helper.loc(r.ast)))
             continue
         gate = None
+        # the documented escape: under settings.trace_mode no data-dependent control flow is allowed, the first factor is
+        # returned as it is - whether the test is `trace_mode.on() or not any(info)` or a separate `if trace_mode.on():`
+        tm = [cfg.nodes[d] for d in cfg.dominators(r.id) if cfg.nodes[d].kind == "test" and "trace_mode" in norm(cfg.nodes[d].ast)
+              and not any(isinstance(x, ast.Name) and x.id in info_names for x in ast.walk(cfg.nodes[d].ast))]
+        if tm and cfg.branch_taken(tm[0].id, r.id) is True and ".on()" in norm(tm[0].ast) and not norm(tm[0].ast).startswith("not "):
+            first_bind = [b for b in binds if b.id in cfg.dominators(r.id)]
+            later = [b for b in binds if b.id in cfg.dominators(r.id) and _inside_loop(cfg, b.id)]
+            if first_bind and not later:
+                rep.ok("C16.I", {"return": norm(r.ast), "gate": tm[0].label, "branch": "documented trace_mode escape",
+                                 "trace_mode_escape": True})
+                continue
         for d in cfg.dominators(r.id):
             dn = cfg.nodes[d]
             if dn.kind == "test":
